@@ -6,6 +6,7 @@ package main
 
 import (
 	"fmt"
+	"math"
 	"strings"
 
 	lua "github.com/yuin/gopher-lua"
@@ -415,7 +416,7 @@ func genReg(r *lib.Rand) RegIn {
 	init := r.Range(1, 40)
 	grow := r.Range(1, 64)
 	if r.Chance(40) {
-		grow = []int{1, 2, 8, 32, 64, 0}[r.Intn(6)]
+		grow = []int{1, 2, 8, 32, 64, 0, math.MaxInt64, math.MaxInt64 - 7}[r.Intn(8)]
 	}
 	var max int
 	switch r.Pick(3, 2, 3, 2, 1) {
